@@ -260,8 +260,19 @@ pub fn run_part<P: Part>(p: &P, cfg: &Cfg) -> PartReport {
                         let again = p.run(cfg, c);
                         a.det += 1;
                         if again != out {
+                            // two runs of one case differ: the harness owns every input, so something else decides the
+                            // outcome. That alone is "no verdict" (hidden state is C18's subject) - but a deviation from
+                            // the oracle that WAS observed in one of the runs stays a violation of this property
                             a.errs.push(format!("nondeterministic case #{}: two runs differ", i));
-                            continue;
+                            if out.mismatches.is_empty() && again.mismatches.is_empty() {
+                                continue;
+                            }
+                            if out.mismatches.is_empty() {
+                                a.run += 1;
+                                a.transitions += again.transitions;
+                                a.violations.push((i, again.mismatches));
+                                continue;
+                            }
                         }
                     }
                     if !out.machinery.is_empty() {
